@@ -1,11 +1,11 @@
 #!/bin/sh
 # run the hand-written single-line mutations under /verif/selftest/<Cxx>/*.diff against the check of that property
 # (scratch copies only).  Every one of them breaks the property and must be reported; prints one line per mutation.
-cd /verif || exit 1
+cd ${VERIF_ROOT:-/verif} || exit 1
 miss=0
 for f in selftest/${1:-C*}/*.diff; do
   prop=$(basename $(dirname $f))
-  out=$(TRY_TIMEOUT=1500 tools/try_patch.sh /verif/$f $prop 2>&1); rc=$?
+  out=$(TRY_TIMEOUT=1500 tools/try_patch.sh $(pwd)/$f $prop 2>&1); rc=$?
   v=$(echo "$out" | grep -m1 '^VIOLATION' | sed 's/.*obligation=\([^ ]*\).*/\1/')
   if [ $rc = 1 ]; then echo "detected $f $v"; else echo "MISSED   $f (exit $rc)"; miss=1; fi
 done
